@@ -228,7 +228,9 @@ class Check:
         self.minimum = dict(evaluations=1, distinct=2)
         self.known = [k for k in load_known() if k.get("property") == prop]
         self.tmp = tempfile.mkdtemp(prefix="verif-%s-" % prop, dir=os.environ.get("VERIF_TMP"))
-        self.replay_dir = os.path.join(ROOT, "replay", prop)
+        # runs against a scratch copy of the repository (mutant self-tests) must not clobber evidence / replays
+        self.out_root = ROOT if REPO == "/repo" else os.environ.get("VERIF_SCRATCH_OUT", "/tmp/verif-scratch-out")
+        self.replay_dir = os.path.join(self.out_root, "replay", prop)
 
     # -- recording
     def case(self, cls=None, n=1):
@@ -328,8 +330,8 @@ class Check:
             assumptions=self.assumptions, wall_s=round(wall, 2),
             violations=len(uniq) + sum(c for _, c in known_hit.values()),
         )
-        os.makedirs(os.path.join(ROOT, "evidence"), exist_ok=True)
-        evp = os.path.join(ROOT, "evidence", self.prop + ".json")
+        os.makedirs(os.path.join(self.out_root, "evidence"), exist_ok=True)
+        evp = os.path.join(self.out_root, "evidence", self.prop + ".json")
         tmp = evp + ".tmp%d" % os.getpid()
         with open(tmp, "w") as f:
             json.dump(ev, f, indent=1, default=str)
